@@ -216,6 +216,13 @@ def check(ctx):
             fl = [n for n, cfid, nm in fn_.calls() if nm == POS + '::change_current_side']
             ctx.ob('C03.R1.side-flip', short(fn_.name), _once_every_path(fn_, fl),
                    '%s flips the side to move exactly once on every path' % short(fn_.name), site=fn_.loc())
+    # history of keys: one push per do_move, one pop per undo_move on every path, none for null moves (C07.R1)
+    from rules.common import SubCtx
+    import props.C07 as c07
+    sub = SubCtx(ctx)
+    c07.check_history(sub, p)
+    for r in sub.results:
+        ctx.ob(r[0].replace('C07.R1', 'C03.R1.history'), r[1], r[2], r[3], site=r[4])
     # every Position field written (transitively) by do_* is accounted for
     handled = {'_board', '_by_color_bb', '_by_piece_kind_bb', '_piece_position', '_piece_count', '_zobrist_hash',
                '_current_side', '_ply_counter', '_history_counter', '_half_move_counter', '_castling_rights',
